@@ -98,7 +98,7 @@ def check_case(spec):
     with sim.workdir():
         opts = build.make_options(spec["options"], dev, output_file="out.h5")
         try:
-            solver = build.make_solver(dev, opts, applied_vector_potential=build.make_vector_potential(spec["field"], dev, opts.field_units),
+            solver = build.make_solver(dev, opts, applied_vector_potential=build.make_vector_potential(spec["field"], dev, opts.field_units, opts.solve_time),
                                        terminal_currents=build.make_currents(cur_spec, opts.solve_time))
         except ValueError as exc:
             if "sum of all terminal currents" in str(exc):
